@@ -138,3 +138,72 @@ func vp_C14_malformed() {
 	vpAssert("malformed-response-fails", (err != nil) == (kind != "fine"))
 	vpReach("fine", err == nil)
 }
+
+// vp:check C14 both configs=version:10 K=24 timeout=1200
+// vp_C14_send_join_response: CheckSendJoinResponse accepts exactly when the join event is allowed by the auth events it
+// cites AND by the returned current state. The state's join rule is public or invite; the join may instead cite an older
+// public join rule that is only part of the auth chain; Bob may already be invited or banned in the state; the join
+// rule event of the state may carry a bad signature (it is then dropped and the default rule, invite, applies).
+func vp_C14_send_join_response() {
+	ver := RoomVersion(vpConfig("version"))
+	verImpl, err := GetRoomVersion(ver)
+	vpAssume(err == nil)
+	c := vpBuild(verImpl, vpAlice, spec.MRoomCreate, vpStrPtr(""), vpJObj("creator", vpAlice, "room_version", string(ver)), nil, 1, true)
+	j := vpBuild(verImpl, vpAlice, spec.MRoomMember, vpStrPtr(vpAlice), vpJObj("membership", spec.Join), []string{c.EventID()}, 2, true)
+	p := vpBuild(verImpl, vpAlice, spec.MRoomPowerLevels, vpStrPtr(""), vpJObj("users", vpJObj(vpAlice, int64(100))), []string{c.EventID(), j.EventID()}, 3, true)
+	base := []string{c.EventID(), j.EventID(), p.EventID()}
+	oldJR := vpBuild(verImpl, vpAlice, spec.MRoomJoinRules, vpStrPtr(""), vpJObj("join_rule", spec.Public), base, 4, true)
+	stateRule := vpChoice("state_join_rule", spec.Public, spec.Invite)
+	jrSigOK := vpNondetBool("state_join_rule_signature_good")
+	curJR := vpBuild(verImpl, vpAlice, spec.MRoomJoinRules, vpStrPtr(""), vpJObj("join_rule", stateRule, "v", int64(2)), base, 5, jrSigOK)
+	prior := vpChoice("bob_prior_membership", "none", spec.Invite, spec.Ban)
+	var bobPrior PDU
+	if prior != "none" {
+		bobPrior = vpBuild(verImpl, vpAlice, spec.MRoomMember, vpStrPtr(vpBob), vpJObj("membership", prior), append(append([]string{}, base...), curJR.EventID()), 6, true)
+	}
+	cites := vpChoice("join_cites", "state-join-rule", "old-public-join-rule")
+	citedJR := curJR
+	if cites == "old-public-join-rule" {
+		citedJR = oldJR
+	}
+	joinAuth := []string{c.EventID(), p.EventID(), citedJR.EventID()}
+	if bobPrior != nil {
+		joinAuth = append(joinAuth, bobPrior.EventID())
+	}
+	join := vpBuild(verImpl, vpBob, spec.MRoomMember, vpStrPtr(vpBob), vpJObj("membership", spec.Join), joinAuth, 7, true)
+
+	pubB, _ := vpKey("server-x")
+	verifier := &vpKeyVerifier{keys: map[spec.ServerName]ed25519.PublicKey{"x": ed25519.PublicKey(pubB)}}
+	resp := &vpStateResp{auth: EventJSONs{c.JSON(), j.JSON(), p.JSON(), oldJR.JSON()}, state: EventJSONs{c.JSON(), j.JSON(), p.JSON(), curJR.JSON()}}
+	if bobPrior != nil {
+		resp.state = append(resp.state, bobPrior.JSON())
+	}
+	out, err := CheckSendJoinResponse(context.Background(), ver, resp, verifier, join, nil, vpUserIDForSender)
+
+	allowedUnder := func(rule string) bool {
+		switch prior {
+		case spec.Ban:
+			return false
+		case spec.Invite:
+			return true
+		}
+		return rule == spec.Public
+	}
+	effectiveStateRule := stateRule
+	if !jrSigOK {
+		effectiveStateRule = spec.Invite // the badly signed join-rules event is dropped: default rule
+	}
+	citedRule := spec.Public
+	if cites == "state-join-rule" {
+		citedRule = effectiveStateRule
+	}
+	want := allowedUnder(citedRule) && allowedUnder(effectiveStateRule)
+	vpAssert("accepted-iff-allowed-by-auth-events-and-state", (err == nil) == want)
+	if err == nil {
+		st := out.GetStateEvents().UntrustedEvents(ver)
+		vpAssert("bad-join-rule-dropped", vpHasID(st, curJR.EventID()) == jrSigOK)
+		vpAssert("state-kept", vpHasID(st, c.EventID()) && vpHasID(st, p.EventID()))
+	}
+	vpReach("accepted", err == nil)
+	vpReach("refused-by-state-only", err != nil && allowedUnder(citedRule))
+}
